@@ -129,7 +129,7 @@ def concretise(job, unit, res, workdir, log):
                 f.write('#define QX_VAL_%s 0x%xULL\n' % (n, vals.get(n, 0) & 0xFFFFFFFFFFFFFFFF))
         # native replay against the real headers
         wrap_fns = [cn for cn, inf in lw.fn_info.items() if cn == fn]
-        wcpp = RP.wrapper_cpp(lw, os.path.join(VERIF, 'inst', unit['driver'].replace('.cpp', '.hpp')), wrap_fns, stub_fns)
+        wcpp = RP.wrapper_cpp(lw, os.path.join(VERIF, 'inst', unit['driver'].replace('.cpp', '.hpp')), wrap_fns, stub_fns, ast=ast)
         wfile = os.path.join(jd, 'wrapper.cpp')
         with open(wfile, 'w') as f:
             f.write(wcpp)
@@ -161,7 +161,9 @@ def concretise(job, unit, res, workdir, log):
         elif 'QX-LOWERING-MISMATCH' in o4:
             out['note'] = 'lowered code and real code disagree on this input: extraction problem, not a violation'
             out['lowering_mismatch'] = True
-        elif 'QX-ASSERT-FAILED' in o4 or 'AddressSanitizer' in o4 or re.search(r'Include/\w+\.hpp:\d+:\d+: runtime error', o4) or (rc4 not in (0,) and 'native.c' not in o4):
+        elif 'QX-START' not in o4:
+            out['note'] = 'native replay did not start'
+        elif 'QX-ASSERT-FAILED' in o4 or 'AddressSanitizer' in o4 or re.search(r'Include/\w+\.hpp:\d+:\d+: runtime error', o4) or rc4 in (-8, -11, -6, -4, 134, 136, 139, -9):
             out['reproduced'] = True
         return out
     except (R.Undecided, LowerError) as e:
